@@ -10,23 +10,6 @@ verus! {
 
 // operator_sem (meaning of a source operator, property-level table): prelude_compiler.rs
 
-/// what each operator computes on two in-range integers, as mathematical integers / truth values encoded 0/1
-/// (this is exactly the content of the C06 contracts O06.1, O06.2 (Verus) and O06.3 (Kani))
-pub open spec fn int_sem(op: int, a: int, b: int) -> int {
-    if op == op_add() { a + b } else if op == op_sub() { a - b } else if op == op_mul() { a * b }
-    else if op == op_lt() { if a < b { 1 } else { 0 } } else if op == op_lte() { if a <= b { 1 } else { 0 } }
-    else if op == op_gt() { if a > b { 1 } else { 0 } } else if op == op_gte() { if a >= b { 1 } else { 0 } }
-    else if op == op_eq() { if a == b { 1 } else { 0 } } else if op == op_neq() { if a != b { 1 } else { 0 } }
-    else { 0 }
-}
-/// O10.3m  mirror law: whenever the table gives a mirror, op(a, b) == mirror(op)(b, a) for ALL integers
-pub proof fn lemma_mirror(op: int, a: int, b: int)
-    requires mirror_sem(op) != op_none()
-    ensures int_sem(op, a, b) == int_sem(mirror_sem(op), b, a)
-{
-    assert(a * b == b * a) by (nonlinear_arith);
-}
-
 /// code of the fused instruction for `local op constant`
 pub open spec fn fused_code(f: OpCode, local_idx: u16, const_idx: int) -> Seq<u8> {
     seq![opcode_byte(f)] + le16(local_idx as int) + le16(const_idx)
@@ -47,16 +30,7 @@ pub open spec fn fused_emitted(pre: Compiler, post: Compiler, name: Seq<char>, v
     &&& spec_tag(post.constants@[ci]) == Type::Int && spec_int(post.constants@[ci]) == value
 }
 
-/// O10.3a  mirror_operator answers exactly the mirror table of the property statement (a op b == b op' a) and
-/// refuses the operators that have no mirror (- / % && ||)
-fn mirror_operator(operator: &Operator) -> (r: Option<Operator>)
-    ensures
-        //@VACUITY
-        mirror_sem(operator_sem(*operator)) != op_none() ==> (r is Some && operator_sem(r->Some_0) == mirror_sem(operator_sem(*operator))),
-        mirror_sem(operator_sem(*operator)) == op_none() ==> r is None,
-{
-//@BODY file=compiler.rs fn=mirror_operator sig="fn mirror_operator(operator: &Operator) -> Option<Operator>" rules="R4"
-}
+//@ASSUMES unit=c10_mirror.rs fn=mirror_operator full=1
 
 impl Compiler {
     /// O10.3b  source `varname operator const_value` (VARIABLE ON THE LEFT): either exactly one fused instruction
